@@ -276,7 +276,7 @@ def mutants(jobs, only, tmp):
             ok = False
             print('  CRASH     %-70s %s' % (name, err[0]['detail'][-300:]))
         elif viol:
-            v = viol[0]
+            v = next((r for r in viol if os.path.splitext(fname)[0] in r['id']), viol[0])
             print('  violated  %-72s %-58s replayed=%s  (%d violated obligation(s), %.0fs)' % (name[:72], v['id'].split('.', 1)[1][:58], v.get('replayed'), len(viol), secs))
             if expect and not any(r['kind'] == expect for r in viol):
                 print('            note: expected a %s obligation among the violated ones' % expect)
